@@ -31,14 +31,25 @@
                                     (equivalently) promised winnings + stake on o ≤ liquidity + total stake, summed over
                                     the current and all closed rounds — the inequality the Go-side monitor evaluates
     c02_current_round_partial       the current-round facts in the fields of the stored records
-    c02_payout_nonneg_partial       house loss bounded by deposit (see there for what is assumed)
+    c02_payout_nonneg_partial       house loss bounded by deposit: once every bet of the market is settled, the payout
+                                    of a participation (liquidity + realised profit on a declared result) is ≥ 0
+    c02_house_loss_bounded_partial  the same for every book that has left the active state, the settlement order
+                                    being supplied by `SettleInv` (user-signed messages, empty module accounts)
+
+  Second counter-example: `c02_counterexample_loss_exceeds_deposit` (a participation loses more than its deposit
+  and the order-book end-blocker halts on the negative payout).
+  Remark: `betFee > betMin` is allowed by the parameter validators, so the stake after the fee can be negative; such a
+  wager either produces no backing part or a part with negative stake, which `NonNegParts` excludes — the loop
+  invariant "remaining stake ≥ 0 → remaining payout profit ≥ 0" (`col_decide1_facts`) covers it, no bound is missing.
 
   The invariant `ColInv` and its preservation live in SgeProofs/Lemmas/Collateral*.lean: `CExt` (updates that do not
   touch the arithmetic), deposit = fresh item, withdrawal = `Item.withdraw`, one queue visit = `Item.fulfil` on the
   visited participation (`col_visit_some`, threaded through `visit`/`loop` with the loop invariant `LInv` of
   ObWager.lean), re-queue = `Item.requeue` (`requeue_col`), settlement only touches realised profit and flags.
 -/
-import SgeProofs.Lemmas.CollateralSums
+import SgeProofs.Lemmas.CollateralProfit
+import SgeProofs.Lemmas.CustodySettleStep
+import SgeProofs.Properties.C01
 namespace Sge.Core
 open Sge Sge.Genesis
 
@@ -73,6 +84,19 @@ theorem c02_counterexample_undercollateralised :
       p.liq + b.otherStakes p.idx 12 = 1 ∧ b.promised p.idx 12 = 2 ∧
       p.liq + p.actualProfit + b.otherStakes p.idx 12 < b.promised p.idx 12 ∧
       p.liq < p.crMaxLoss) := by
+  decide +kernel
+
+/-- KNOWN FINDING (KF-C02-loss-exceeds-deposit, same root cause), proved on the model of the code as it is: continue
+    the history above by declaring outcome 12. The bet end-blocker settles both bets; participation 4 (liquidity 2)
+    then has realised profit −3 (it "received" −1 from the lost bet on 11 and pays 2 to the won bet on 12): it loses
+    MORE than it deposited, its payout liquidity + realised profit is −1. The order-book end-blocker of the same
+    block has to send that negative amount; the bank transfer fails and the end-block halts. -/
+theorem c02_counterexample_loss_exceeds_deposit :
+    ((betEndBlock ((run kf02Init (kf02Ops ++ [.marketResolve kf02Tk 1 60 MS_DECLARED [12]])).mqueue.length + 1)
+        (run kf02Init (kf02Ops ++ [.marketResolve kf02Tk 1 60 MS_DECLARED [12]])) 1000).map
+      (fun s => s.books.map (fun b => b.parts.map (fun p => (p.idx, p.liq, p.actualProfit, p.liq + p.actualProfit)))))
+      = some [[(1, 5, -4, 1), (2, 2, -2, 0), (3, 2, -2, 0), (4, 2, -3, -1), (5, 2, -1, 1), (6, 1000, 22, 1022)]] ∧
+    (step (run kf02Init (kf02Ops ++ [.marketResolve kf02Tk 1 60 MS_DECLARED [12]])) .endBlock).2 = .halt := by
   decide +kernel
 
 -- ---------------------------------------------------------------------------------------------
@@ -158,6 +182,87 @@ theorem c02_current_round_partial (p : Params) (bal : List (Nat × Int)) (h t : 
   exact ⟨h1.1, h1.2, h2, h3⟩
 
 -- ---------------------------------------------------------------------------------------------
+-- house loss bounded by deposit
+
+theorem col_sumBy_sub3 {α : Type} (f g k : α → Int) (l : List α) :
+    sumBy (fun x => f x - g x - k x) l = sumBy f l - sumBy g l - sumBy k l := by
+  induction l with
+  | nil => rfl
+  | cons x xs ih => rw [sumBy_cons, sumBy_cons, sumBy_cons, sumBy_cons, ih]; omega
+
+/-- C02.n  (PARTIAL: histories with a negative backing part — KF-C03-negative-part — are excluded by `NonNegParts`;
+    the hypothesis "every bet of the market is settled" is what the settlement order of the end-blockers provides,
+    see C02.o.) House loss is bounded by the deposit: once all bets of a market are settled, what a participation is
+    paid out — liquidity + realised profit on a declared result, the liquidity otherwise — is not negative, i.e. the
+    depositor never loses more than the liquidity it put in. The realised profit is tied to the bets by the
+    whole-history invariant `ApInv` (it is −Σ promised winnings of the parts backing winning bets + Σ stakes of the
+    parts backing losing bets) and to the exposure sums by the C10 sum equations. -/
+theorem c02_payout_nonneg_partial (p : Params) (bal : List (Nat × Int)) (h t : Nat) (ops : List Op) :
+    let s := run (initState p bal h t) ops
+    NonNegParts s → ∀ b ∈ s.books, ∀ m, getMarket s b.uid = some m →
+      (∀ x ∈ s.bets, x.market = b.uid → x.status = BS_SETTLED) →
+      ∀ pt ∈ b.parts, 0 ≤ pt.payout m := by
+  intro s hnn b hb m hm hall pt hpt
+  have hI : ObInv s := c10_invariant p bal h t ops
+  have hA : ApInv s := run_ap _ ops (obInv_init p bal h t) (apInv_init p bal h t)
+  have hq := hI.qinv b hb
+  have hg := Book.mem_getPart hq.s.sP hpt
+  have hC := c02_collateral_partial p bal h t ops hnn b hb pt.idx pt hg
+  have hrng : 0 ≤ pt.crl ∧ pt.crl ≤ pt.liq := hC.rng
+  unfold Part.payout
+  split
+  · rename_i hd
+    have hd : m.status = MS_DECLARED := by simpa using hd
+    have hap := hA.ap b hb m hm pt.idx pt hg
+    rw [if_pos hd] at hap
+    have hw := hA.win m (getMarket_memQ hm) hd
+    obtain ⟨w, hw⟩ : ∃ w, m.winners = [w] := by
+      cases hml : m.winners with
+      | nil => rw [hml] at hw; cases hw
+      | cons w ws =>
+        cases ws with
+        | nil => exact ⟨w, rfl⟩
+        | cons _ _ => rw [hml] at hw; simp at hw
+    have hsum : sumBy (apTerm b.uid m.winners pt.idx) s.bets =
+        sumBy (betStakeAt b.uid pt.idx) s.bets - sumBy (betStakeOAt b.uid w pt.idx) s.bets - sumBy (betProfitAt b.uid w pt.idx) s.bets := by
+      rw [← col_sumBy_sub3]
+      apply sumBy_congr
+      intro x hx
+      unfold apTerm betStakeAt betStakeOAt betProfitAt
+      rw [hw]
+      by_cases hxm : x.market = b.uid
+      · have hst := hall x hx hxm
+        by_cases hxo : x.odds = w
+        · simp [hxm, hst, hxo]
+        · simp [hxm, hst, hxo]
+      · simp [hxm]
+    rw [← hI.tb b hb pt.idx pt hg, ← hI.tB b hb w pt.idx, ← hI.tE b hb w pt.idx] at hsum
+    have hcol := c02_collateral _ hC w
+    rw [col_item_collateral] at hcol
+    have hc2 : (b.colItem pt).liq = pt.liq := rfl
+    rw [hc2] at hcol
+    omega
+  · omega
+
+/-- C02.o  (PARTIAL: same exclusion; additionally, as in C01, messages are signed by user accounts and the module
+    accounts start empty — the hypotheses of the settlement-order invariant `SettleInv`.) In every reachable state,
+    for every order book that has left the active state (the only books whose participations `settlePart` pays) the
+    payout of every participation is non-negative: house loss is bounded by the deposit. -/
+theorem c02_house_loss_bounded_partial (p : Params) (bal : List (Nat × Int)) (h t : Nat) (ops : List Op)
+    (h0 : getBal bal ACC_POOL = 0 ∧ getBal bal ACC_BETFEE = 0 ∧ getBal bal ACC_HOUSEFEE = 0)
+    (hwf : ∀ op ∈ ops, op.userSigned') :
+    let s := run (initState p bal h t) ops
+    NonNegParts s → ∀ b ∈ s.books, b.status ≠ OB_ACTIVE → ∀ m, getMarket s b.uid = some m →
+      ∀ pt ∈ b.parts, 0 ≤ pt.payout m := by
+  intro s hnn b hb hst m hm pt hpt
+  have hS : SettleInv s := run_settleInv _ ops (settleInv_init p bal h t h0) hwf
+  apply c02_payout_nonneg_partial p bal h t ops hnn b hb m hm _ pt hpt
+  intro x hx hxm
+  have := hS.closedNoOpen b hb hst x hx hxm
+  unfold Bet.isOpen at this
+  simpa using this
+
+-- ---------------------------------------------------------------------------------------------
 -- non-vacuity: the history of C10Sums (two deposits, three bets on two outcomes; the first bet exhausts
 -- participation 1, which is re-queued into round 2 with its round-1 exposures moved to history; declared result,
 -- settlement) has only non-negative backing parts, so the theorems above apply to it
@@ -173,5 +278,16 @@ example : ∀ b ∈ c10Final.books, ∀ pt ∈ b.parts, ∀ o : Nat, b.promised 
   fun b hb pt hpt o =>
     (c02_monitor_inequality_partial c10Params [(1, 100000), (2, 100000), (3, 100000)] 1 0 c10Ops
       (by unfold NonNegParts; decide +kernel) b hb pt hpt o).1
+
+/-- the same history satisfies the hypotheses of C02.o: after the settling end-block the book has left the active
+    state and every participation was paid a non-negative amount (90 and 210 for liquidity 90 and 270) -/
+example : (∀ b ∈ c10Final.books, b.status ≠ OB_ACTIVE → ∀ m, getMarket c10Final b.uid = some m → ∀ pt ∈ b.parts, 0 ≤ pt.payout m) ∧
+    (c10Final.books.map (fun b => (b.status, b.parts.map (fun pt => (pt.idx, pt.liq, pt.actualProfit, pt.isSettled)))) ==
+      [(OB_SETTLED, [(1, 90, 0, true), (2, 270, -60, true)])]) = true := by
+  refine ⟨c02_house_loss_bounded_partial c10Params [(1, 100000), (2, 100000), (3, 100000)] 1 0 c10Ops (by decide) ?_
+    (by unfold NonNegParts; decide +kernel), by decide +kernel⟩
+  intro op hop
+  simp only [c10Ops, List.mem_cons, List.not_mem_nil, or_false] at hop
+  rcases hop with rfl | rfl | rfl | rfl | rfl | rfl | rfl | rfl <;> first | trivial | (show isModuleAcc _ = false; decide)
 
 end Sge.Core
